@@ -2,7 +2,7 @@
 from __future__ import annotations
 
 from mc import decobs
-from mc.core import pmap, short_hash
+from mc.core import pmap, short_hash, run_tasks
 from props.deccommon import MODELS, compare_tables
 from ref import decmodel
 
@@ -183,8 +183,7 @@ def run(ctx):
     light = [it for it in items if it[2] < 1000]
     ctx.rng.shuffle(light)
     chunks = [[h] for h in heavy] + [light[i:i + 30] for i in range(0, len(light), 30)]
-    for r in pmap(work, chunks, ctx.workers):
-        ctx.absorb(r)
+    run_tasks(ctx, work, chunks)
     ctx.count(states=len(items), transitions=sum(len(it[1].get("ast", [[0, 0, [0]]])[0][2]) if it[0] == "accept" else 1 for it in items))
     ctx.part("cases", **counts, published_models=len(MODELS), complete=True)
     ctx.extra["bound_completed"] = {"published_names": len(MODELS), "contexts_per_name": 5, "prefix_lengths": "all"}
